@@ -29,15 +29,126 @@ def _matmul_operands(e: ast.AST) -> Optional[Tuple[ast.AST, ast.AST]]:
     return None
 
 
+def _fold_calls(u: Unit):
+    """(call, function, sequence expression) for reduce(f, seq[, init]) / multi_dot(seq)."""
+    for c in walk_local(u.node):
+        if not isinstance(c, ast.Call):
+            continue
+        fn = (dotted(c.func) or "").split(".")[-1]
+        if fn == "reduce" and len(c.args) >= 2:
+            yield c, c.args[0], c.args[1]
+        elif fn == "multi_dot" and c.args:
+            yield c, None, c.args[0]
+
+
+def _fold_puts_later_left(f: Optional[ast.AST]) -> Optional[bool]:
+    """reduce(f, [s0, s1, ..]): does a later element end up LEFT of the earlier ones?
+    np.matmul / np.dot / operator.matmul / lambda a, b: a @ b -> no (s0 @ s1 @ ..);
+    lambda a, b: b @ a -> yes."""
+    if f is None:
+        return False
+    d = (dotted(f) or "").split(".")[-1]
+    if d in ("matmul", "dot"):
+        return False
+    if isinstance(f, ast.Lambda) and len(f.args.args) == 2:
+        a, b = f.args.args[0].arg, f.args.args[1].arg
+        ops = _matmul_operands(f.body)
+        if ops is not None and isinstance(ops[0], ast.Name) and isinstance(ops[1], ast.Name):
+            if (ops[0].id, ops[1].id) == (a, b):
+                return False
+            if (ops[0].id, ops[1].id) == (b, a):
+                return True
+    return None
+
+
+def stacking_folds(prog: Program, chk: Check, rule: str, classes: Optional[Set[str]] = None) -> int:
+    """Controls kept as a list per slot and folded when they are read: the product must have
+    the operation added later on the left.  Returns the number of folds judged."""
+    units = [u for u in prog.units_in("control") if not isinstance(u.node, ast.Lambda)
+             and (classes is None or u.cls in classes)]
+    # how operations enter list slots: {attribute: True if a later addition sits later in the list}
+    containers: Dict[str, bool] = {}
+    for u in units:
+        params = set(u.params)
+        for c in walk_local(u.node):
+            if not (isinstance(c, ast.Call) and isinstance(c.func, ast.Attribute)
+                    and c.func.attr in ("append", "insert") and c.args):
+                continue
+            base = c.func.value
+            while True:
+                if isinstance(base, ast.Subscript):
+                    base = base.value
+                elif isinstance(base, ast.Call) and isinstance(base.func, ast.Attribute) \
+                        and base.func.attr in ("setdefault", "get"):
+                    base = base.func.value
+                else:
+                    break
+            d = dotted(base)
+            if not (d and d.startswith("self.")):
+                continue
+            if not any(isinstance(x, ast.Name) and x.id in params for x in ast.walk(c.args[-1])):
+                continue
+            if c.func.attr == "append":
+                containers[d] = True
+            elif isinstance(c.args[0], ast.Constant) and c.args[0].value == 0:
+                containers[d] = False
+    n = 0
+    for u in units:
+        for (c, f, seq) in _fold_calls(u):
+            attrs = [a for a in containers if any(dotted(x) == a for x in ast.walk(seq)
+                                                  if isinstance(x, ast.Attribute))]
+            if not attrs:
+                continue
+            n += 1
+            later_is_later = containers[attrs[0]]
+            rev = isinstance(seq, ast.Call) and (dotted(seq.func) or "") == "reversed" or (
+                isinstance(seq, ast.Subscript) and isinstance(seq.slice, ast.Slice)
+                and isinstance(seq.slice.step, ast.UnaryOp) and norm(seq.slice.step) == "-1")
+            if rev:
+                later_is_later = not later_is_later
+            put = _fold_puts_later_left(f)
+            ok = None if put is None else (put == later_is_later)
+            chk.saw(u)
+            chk.add(rule, u, f"fold {norm(c)[:70]}", ok,
+                    "the operation added later ends up on the left (acts after the earlier ones)"
+                    if ok else
+                    ("the fold function is not one this rule can read" if ok is None else
+                     "the stored operations are multiplied with the one added FIRST on the left: "
+                     "an operation added later acts before the earlier ones (A then B gives A @ B "
+                     "instead of B @ A) - two operators of a multi-time correlation that fall on "
+                     "the same step are applied in the wrong order"), c)
+    return n
+
+
 def o1(prog: Program, chk: Check) -> None:
     chk.rule("O1", "at every accumulation slot' = X @ Y in the control module where one operand "
              "is the previously accumulated control of that slot, the newly added operation is "
              "the LEFT operand (it acts after the earlier ones); stacked chain controls are "
-             "iterated in insertion order", floor=9)
+             "iterated in insertion order; a slot kept as a list is folded with the later "
+             "addition on the left", floor=9)
     mod = prog.module("control")
+    stacking_folds(prog, chk, "O1")
+    accumulation_order(prog, chk, "O1")
+    # insertion-order iteration of the chain control lists
+    cc = prog.cls("control:ChainControl")
+    add = cc.methods.get("add_single_site_control")
+    get = cc.methods.get("get_single_site_controls")
+    if add is None or get is None:
+        raise AnalysisError("O1: ChainControl.add_single_site_control/get_single_site_controls vanished")
+    for c in walk_local(add.node):
+        mc = method_call(c) if isinstance(c, ast.Call) else None
+        if mc and mc[0].startswith("self._single_site_controls"):
+            ok = mc[1] == "append"
+            chk.add("O1", add, f"{mc[0]}.{mc[1]}(...)", ok,
+                    "appended in insertion order" if ok else
+                    "controls are not appended in insertion order", c)
+    _o1_chain_iteration(prog, chk, get)
+
+
+def accumulation_order(prog: Program, chk: Check, rule: str, classes: Optional[Set[str]] = None) -> int:
     n = 0
     for u in prog.units_in("control"):
-        if isinstance(u.node, ast.Lambda):
+        if isinstance(u.node, ast.Lambda) or (classes is not None and u.cls not in classes):
             continue
         for st in walk_local(u.node):
             target, ops = None, None
@@ -56,23 +167,15 @@ def o1(prog: Program, chk: Check) -> None:
                 continue
             n += 1
             ok = right_is_acc and not left_is_acc
-            chk.add("O1", u, f"{tl} = {norm(ops[0])} @ {norm(ops[1])}", ok,
+            chk.saw(u)
+            chk.add(rule, u, f"{tl} = {norm(ops[0])} @ {norm(ops[1])}", ok,
                     "new operation applied after the accumulated ones" if ok else
                     "the accumulated operation is the left operand: a control added later "
                     "acts BEFORE the earlier ones (A then B gives A @ B)", st)
-    # insertion-order iteration of the chain control lists
-    cc = prog.cls("control:ChainControl")
-    add = cc.methods.get("add_single_site_control")
-    get = cc.methods.get("get_single_site_controls")
-    if add is None or get is None:
-        raise AnalysisError("O1: ChainControl.add_single_site_control/get_single_site_controls vanished")
-    for c in walk_local(add.node):
-        mc = method_call(c) if isinstance(c, ast.Call) else None
-        if mc and mc[0].startswith("self._single_site_controls"):
-            ok = mc[1] == "append"
-            chk.add("O1", add, f"{mc[0]}.{mc[1]}(...)", ok,
-                    "appended in insertion order" if ok else
-                    "controls are not appended in insertion order", c)
+    return n
+
+
+def _o1_chain_iteration(prog: Program, chk: Check, get: Unit) -> None:
     du = DefUse(get, CFG(get.node, exc_edges=False))
     chk.saw(get, du.cfg)
     for nd in du.cfg.nodes:
